@@ -340,10 +340,23 @@ def generate(repo: str) -> str:
         if 'self._read_message_or_nop' not in calls or 'self.proto.read_message' in calls:
             raise Untranslatable('Peer._main does not read through _read_message_or_nop only')
         read_step = 1
+        f_step = find_function(peer_tree, ['Peer', '_read_message_or_nop'])
+        step_calls = [dotted(n.func) for n in ast.walk(f_step) if isinstance(n, ast.Call)]
+        if 'self.proto.read_message' not in step_calls:
+            raise Untranslatable('Peer._read_message_or_nop does not call self.proto.read_message')
+        # the pending read survives the 100 ms wait: asyncio.wait on a stored task, never wait_for / cancel
+        cancels = [c for c in step_calls if c == 'asyncio.wait_for' or c.endswith('.cancel')]
+        if cancels:
+            read_kept = False
+        elif 'asyncio.wait' in step_calls and 'asyncio.ensure_future' in step_calls:
+            read_kept = True
+        else:
+            raise Untranslatable('Peer._read_message_or_nop: unknown way of waiting for the read')
     else:
         if 'asyncio.wait_for' not in calls or 'self.proto.read_message' not in calls:
             raise Untranslatable('Peer._main: unknown read step')
         read_step = 0
+        read_kept = False
 
     out = []
     out.append('(* GENERATED by translate/t1_header.py - do not edit *)')
@@ -356,6 +369,7 @@ def generate(repo: str) -> str:
     out.append(f'Definition EXTENDED_SIZE : Z := {extended}.')
     out.append('Definition MESSAGES : list Z := [' + '; '.join(str(m) for m in messages) + '].')
     out.append(f'Definition MAIN_READ_STEP : Z := {read_step}.  (* 1: Peer._read_message_or_nop, 0: inline wait_for *)')
+    out.append(f'Definition READ_KEPT : bool := {"true" if read_kept else "false"}.  (* the read survives the 100 ms wait of Peer._main *)')
     out.append(f'Definition UNKNOWN_TYPE_NOTIFY : Z * Z := ({unknown[0]}, {unknown[1]}).')
     out.append('Definition REGISTERED : list Z := [' + '; '.join(str(m) for m in registered) + '].')
     out.append(f'Definition UNPACK_UNKNOWN_NOTIFY : Z * Z := ({unpack_unknown[0]}, {unpack_unknown[1]}).')
